@@ -227,20 +227,20 @@ class Schedule:
         # monotonic - this should never happen but ...
         #######################################################################
 
-        if len(self.adjusted_dts) < 2:
-            raise FinError("Schedule has two dates only.")
-
-        prev_dt = self.adjusted_dts[0]
+        deduped_dts = [self.adjusted_dts[0]]
         for dt in self.adjusted_dts[1:]:
 
-            # if the first date lands on the effective date then remove it
-            if dt == prev_dt:
-                self.adjusted_dts.pop(0)
-
-            if dt < prev_dt:  # Dates must be ordered
+            if dt < deduped_dts[-1]:  # Dates must be ordered
                 raise FinError("Dates are not monotonic")
 
-            prev_dt = dt
+            # flow dates adjusted onto the same business day are one date
+            if dt > deduped_dts[-1]:
+                deduped_dts.append(dt)
+
+        self.adjusted_dts = deduped_dts
+
+        if len(self.adjusted_dts) < 2:
+            raise FinError("Schedule has two dates only.")
 
         #######################################################################
 
